@@ -406,8 +406,12 @@ pub fn run(ctx: &Ctx) -> i32 {
                 sc.write("main.s", &text);
                 sc.write("src/main.s", &text);
                 let _ = std::os::unix::fs::symlink("/dev/zero", sc.dir.join("zero.s"));
-                for (b, exe, file) in [("dev", &ctx.rva_checked, "main.s"), ("release", &ctx.rva_release, "main.s"), ("dev", &ctx.rva_checked, "src/main.s"), ("release", &ctx.rva_release, "src/main.s")] {
-                    let (run, rss) = cli::run_measured(exe, &["lint", "--compact", "--no-color", "--all-files", file], &sc.dir, 4 * 1024 * 1024, std::time::Duration::from_secs(10));
+                let elsewhere = sc.dir.join("elsewhere");
+                let _ = std::fs::create_dir_all(&elsewhere);
+                for (b, exe, file) in [("dev", &ctx.rva_checked, "main.s"), ("release", &ctx.rva_release, "main.s"), ("dev", &ctx.rva_checked, "../src/main.s"), ("release", &ctx.rva_release, "../src/main.s")] {
+                    // (the second pair runs in an empty directory: nothing the include names exists relative to it)
+                    let cwd = if file.starts_with("..") { &elsewhere } else { &sc.dir };
+                    let (run, rss) = cli::run_measured(exe, &["lint", "--compact", "--no-color", "--all-files", file], cwd, 4 * 1024 * 1024, std::time::Duration::from_secs(10));
                     acc.evaluations += 1;
                     acc.count("special_file_includes", 1);
                     acc.note("special_files", what.to_string());
